@@ -186,7 +186,7 @@ func (c *Cluster) genStep(g *genState) *Step {
 	r := c.gen
 	alive := []*SimNode{}
 	for _, n := range c.nodes {
-		if n.running() && !n.silent && n.state() != _state.Shutdown {
+		if n.running() && !n.silent && !n.isObserver && n.state() != _state.Shutdown {
 			alive = append(alive, n)
 		}
 	}
